@@ -369,7 +369,7 @@ Proof.
   unfold concise_state, split. eexists. split; [reflexivity|]. cbn [c_units c_fr].
   assert (Hm : free mod FPU < FPU) by (apply N.mod_lt; discriminate).
   destruct (N.ltb_spec 0 (free mod FPU)).
-  - unfold fget0. simpl. rewrite N.eqb_refl. repeat split; auto.
+  - unfold fget0. simpl. repeat split; auto.
     + unfold FPU, FRACTIONS_PER_UNIT in *. lia.
     + intros i Hi. destruct (N.eqb_spec 0 i); [congruence|auto].
   - unfold fget0. simpl. repeat split; auto; unfold FPU, FRACTIONS_PER_UNIT in *; lia.
